@@ -474,11 +474,11 @@ Section Rows.
     destruct (Nat.leb (length row) (max_col (with_mode sp false false))); [reflexivity|].
     change (date_col (with_mode sp ng ab)) with (date_col sp). change (date_col (with_mode sp false false)) with (date_col sp).
     change (amount_col (with_mode sp ng ab)) with (amount_col sp). change (amount_col (with_mode sp false false)) with (amount_col sp).
-    destruct (get row (date_col sp)) as [d0|[]]; cbn; try reflexivity.
-    destruct (get row (amount_col sp)) as [a0|[]]; cbn; try reflexivity.
+    destruct (get row (date_col sp)) as [d0|r0] eqn:E0; cbn; [|apply get_inr in E0; destruct r0; [contradiction|reflexivity|reflexivity]].
+    destruct (get row (amount_col sp)) as [a0|r0] eqn:E1; cbn; [|apply get_inr in E1; destruct r0; [contradiction|reflexivity|reflexivity]].
     change (desc_and_caps (with_mode sp ng ab) row) with (desc_and_caps sp row).
     change (desc_and_caps (with_mode sp false false) row) with (desc_and_caps sp row).
-    destruct (desc_and_caps sp row) as [[de cs]|[]]; cbn; try reflexivity.
+    destruct (desc_and_caps sp row) as [[de cs]|r0] eqn:E2; cbn; [|apply desc_and_caps_inr in E2; destruct r0; [contradiction|reflexivity|reflexivity]].
     destruct (is_nil d0 || is_nil de || is_nil a0); [reflexivity|].
     change (date_text (with_mode sp ng ab) d0) with (date_text sp d0).
     change (date_text (with_mode sp false false) d0) with (date_text sp d0).
@@ -491,6 +491,9 @@ Section Rows.
     destruct (fl_is_zero am0); [reflexivity|].
     change (location_of (with_mode sp ng ab) row de) with (location_of sp row de).
     change (location_of (with_mode sp false false) row de) with (location_of sp row de).
-    destruct (location_of sp row de) as [lc|[]]; cbn; reflexivity.
+    destruct (location_of sp row de) as [lc|r0] eqn:E3; cbn; [reflexivity|].
+    unfold location_of in E3. destruct (loc_col sp) as [c|]; cbn in E3; [|discriminate].
+    destruct (get row c) as [x|r1] eqn:E4; cbn in E3; [discriminate|]. injection E3 as <-.
+    apply get_inr in E4. destruct r1; [contradiction|reflexivity|reflexivity].
   Qed.
 End Rows.
